@@ -70,7 +70,20 @@ func solveAll(results []*vc.FuncResult, s *vc.Solver, workers int) []*oblResult 
 				q := j.or.Obl.Queries[j.qi]
 				var a vc.Answer
 				if len(q.PC) > 40 {
-					// large context: first try to prove the goal from the hypotheses in its cone of influence
+					// large context: first try to prove the goal from the hypotheses in its cone of influence;
+					// with opaque spec predicates, first without their definitions (a proof from fewer
+					// hypotheses is still a proof)
+					sq := j.res.SlicedQuery(q, 4)
+					if cq := vc.CloseOpaque(sq, false); cq != sq {
+						a = s.SolveQuick(cq, 5)
+						if a.Result != "unsat" {
+							a = s.SolveQuick(vc.CloseOpaque(sq, true), 10)
+						}
+						if a.Result == "unsat" {
+							j.or.Answers[j.qi] = a
+							continue
+						}
+					}
 					a = s.SolveQuick(j.res.SlicedQuery(q, 2), 6)
 					if a.Result != "unsat" {
 						a = s.SolveQuick(j.res.SlicedQuery(q, 4), 10)
